@@ -23,6 +23,8 @@ package crypto
 
 //@ func ParseJWT
 //@   prop C17 C01
+//@   summary once
+//@   ensures [key-function-consulted] isNilIface(result.1) ==> did(call f #1) && isNilIface(ret(call f #1).1)
 //@   call jwt.ParseString #1 requires [verify-with-resolved-key-and-supported-alg]
 //@        arg(0) == tokenString
 //@     && did(call JWTKidAlg #1) && arg(call JWTKidAlg #1, 0) == tokenString && isNilIface(ret(call JWTKidAlg #1).2)
